@@ -306,7 +306,6 @@ func (h *hist) submit(kind string, source uint64, height uint32, extra []byte, p
 				} else {
 					r.Count("rejected", 1)
 					r.Count("rejected:"+rt, 1)
-			h.countID(false, source, p.CrossChainID)
 					if p != nil {
 						h.countID(false, source, p.CrossChainID)
 					}
@@ -364,6 +363,7 @@ func (h *hist) evmCall(kind string, src *evmSrc, p *es.TxParam, wantAccept bool,
 			r.Count("rejected", 1)
 			r.Count("rejected:"+rt, 1)
 			r.Count("rejected:"+kind, 1)
+			h.countID(false, source, p.CrossChainID)
 		}
 	}
 	h.checkMarkers(kind)
